@@ -23,8 +23,10 @@ list-level dual-number data has, at every abscissa and derivative order, a sensi
 equal to the spline solved on the data's sensitivities to that name (so, with one tag per datum, the
 unit-data spline), a value equal to the spline solved on the data's values, and (second-order data) second
 sensitivities equal to the spline solved on the data's second sensitivities.
-NOT COVERED BY A THEOREM: the least-squares (tall) branch of `csolve` for polynomial reproduction; covered by
-the correspondence run and the model-free oracle.
+LEAST SQUARES (`C15_polynomial_reproduction_lsq`): with at least as many sites as coefficients and least squares
+allowed, the normal equations built from polynomial data are solved by Marsden's coefficients, so — full
+column rank, i.e. no zero pivot in THEIR elimination — the solved spline again equals the polynomial with all
+derivatives.
 -/
 import RateslibModel.Proofs.FSolve
 import RateslibModel.Props.C14
@@ -213,6 +215,24 @@ theorem C15_polynomial_reproduction (t : List ℝ) (K : Nat) (H : RightEnd t K) 
     ∀ (x : ℝ), knot t 0 ≤ x → x ≤ knot t (t.length - 1) → ∀ m,
       s'.ppdnev x m = some ((derivative^[m] p).eval x) :=
   poly_reproduction t K H he p hp tau l r htau y hy hpiv s' h
+
+/-- POLYNOMIAL REPRODUCTION, LEAST-SQUARES BRANCH: at least as many sites as coefficients, least squares
+allowed, data from a polynomial of degree below the order; if the elimination on the normal equations
+`AᵀA c = Aᵀy` meets no zero pivot, the solved spline and all its derivatives equal the polynomial's,
+everywhere in the domain. -/
+theorem C15_polynomial_reproduction_lsq (t : List ℝ) (K : Nat) (H : RightEnd t K) (he : EndKnots t K)
+    (p : ℝ[X]) (hp : p.natDegree < K) (tau : List ℝ) (l r : Nat)
+    (htau : ∀ j, j < tau.length → knot t 0 ≤ tau.getD j 0 ∧ tau.getD j 0 ≤ knot t (t.length - 1))
+    (y : List ℝ)
+    (hy : ∀ j, j < tau.length → y.getD j 0 = (derivative^[rowOrder tau.length l r j] p).eval (tau.getD j 0))
+    (hpiv : PivotsGood geR (t.length - K) (List.range (t.length - K))
+      ⟨fun i j => ∑ q ∈ Finset.range tau.length,
+          bsplMatrix K t (t.length - K) tau l r q i * bsplMatrix K t (t.length - K) tau l r q j,
+       fun i => ∑ q ∈ Finset.range tau.length, bsplMatrix K t (t.length - K) tau l r q i * y.getD q 0⟩)
+    (s' : PPSpline ℝ ℝ) (h : (⟨K, t, none⟩ : PPSpline ℝ ℝ).csolve tau y l r true = some s') :
+    ∀ (x : ℝ), knot t 0 ≤ x → x ≤ knot t (t.length - 1) → ∀ m,
+      s'.ppdnev x m = some ((derivative^[m] p).eval x) :=
+  poly_reproduction_lsq t K H he p hp tau l r htau y hy hpiv s' h
 
 /-- the comparison of the theorem is the one the model's own float instance uses -/
 theorem C15_geR_is_model_instance (x y : ℝ) : @LinOps.absGe ℝ linOpsScalar x y = geR x y := rfl
